@@ -12,6 +12,7 @@ import (
 	"math"
 	"math/rand"
 	"os"
+	"strings"
 	"sort"
 	"time"
 
@@ -297,6 +298,9 @@ func repsOf(c envCase) int {
 		if op.Op == "sethdr" && op.A == "foreign" && n < foreignHeaders {
 			n = foreignHeaders
 		}
+		if op.Op == "settag" && op.A == "ucan/x" && n < 8 {
+			n = 8
+		}
 		if op.Op != "set" {
 			continue
 		}
@@ -494,7 +498,14 @@ func (ew *envWorld) apply(e *envelopeParts, op envOp) error {
 		case "inv":
 			e.tag = invTag
 		case "ucan/x":
-			e.tag = "ucan/x@1.0.0"
+			// a ucan/ tag that is neither token type: an unknown type, or the tag of this token's own type with something
+			// appended, cut off or changed (another release candidate, build metadata, another case)
+			own := dlgTag
+			if e.typ == "inv" {
+				own = invTag
+			}
+			reps := []string{"ucan/x@1.0.0", own + "0", own + ".1", own + "+build", own[:len(own)-1], strings.Replace(own, "rc.1", "rc.2", 1), strings.ToUpper(own[:8]) + own[8:], own + " "}
+			e.tag = reps[ew.rot%len(reps)]
 		case "nonucan":
 			e.tag = "xcan/dlg@1.0.0-rc.1"
 		}
